@@ -160,6 +160,14 @@ static Verdict run(const Case& c)
          v.fail(std::string(statusName(st)) + " returned for an LP with a finite optimum");
          return v;
       }
+      // known finding C01/textbook-rt-cycles: exactly RATIOTESTER_TEXTBOOK (no anti-cycling safeguard; documented in
+      // spxdefaultrt.h as 'not intended for reliably solving LPs') ending in ABORT_ITER / ABORT_CYCLING on a degenerate LP
+      if(knownKey("textbook-rt-cycles") && sp.intParam(SoPlex::RATIOTESTER) == SoPlex::RATIOTESTER_TEXTBOOK
+            && (st == Solver::ABORT_ITER || st == Solver::ABORT_CYCLING))
+      {
+         e.count("excluded_known.textbook-rt-cycles");
+         return v;
+      }
       // completeness half of C01 (also reported under C02 runs, which share the claim's domain)
       v.fail(std::string("LP with finite optimum not solved to OPTIMAL: ") + statusName(st));
       return v;
